@@ -115,6 +115,15 @@ def check_get_closest(ctx: Ctx, case):
 def case_digitize(draw):
     d = draw(st.integers(1, 4))
     gs = [draw(grids())[1] for _ in range(d)]
+    if d >= 2 and draw(st.integers(0, 3)) == 0:
+        # columns whose grids are almost - but not - the same (equal length, tiny offsets / tiny magnitudes)
+        how = draw(st.sampled_from(["shift", "tiny", "rel"]))
+        if how == "tiny":
+            ks = sorted(draw(st.lists(st.integers(0, 40), min_size=2, max_size=8, unique=True)))
+            gs = [[k * m * 1e-9 for k in ks] for m in draw(st.lists(st.sampled_from([1.0, 3.0, 0.5, 2.0]), min_size=d, max_size=d))]
+        else:
+            base = gs[0]
+            gs = [base] + [[(g + 4e-9 * (c + 1)) if how == "shift" else g * (1 + 1e-7 * (c + 1)) for g in base] for c in range(d - 1)]
     n = draw(st.integers(0, 6))
     rows = []
     for _ in range(n):
